@@ -133,11 +133,10 @@ prop("C11",
                   "division by zero inside line_seg_pt_intersect_at_dim is an unspecified real (IEEE gives nan/inf, for which all comparisons are False)"])
 
 prop("C07",
-     level_text="optimize_acqf_discrete is executed symbolically for enumerated candidate counts / batch sizes with a row-wise acquisition by contract (arbitrary value tables incl. ties): distinct rows, each the first maximiser among the remaining, non-increasing, values returned with their rows; the acquisition rules (total variance, cost-weighted single-objective variance, region diagonal via locate_points) against their definitions; evaluating() data flow (rows evaluated = rows of the active set in the order handed to add_sample, counters) at set level.",
+     level_text="optimize_acqf_discrete is executed symbolically for enumerated candidate counts / batch sizes with a row-wise acquisition by contract (arbitrary value tables incl. ties): distinct rows, each the first maximiser among the remaining, non-increasing, values returned with their rows; optimize_decoupled_acqf_discrete returns the q largest cells of the (objective x design) table, sorted, as distinct pairs, with the acquisition's evaluation index restored; the acquisition rules (total variance, cost-weighted single-objective variance, region diagonal via locate_points) against their definitions; evaluating() data flow (rows evaluated = rows of the active set in the order handed to add_sample, counters) at set level.",
      mode="unrolled: up to 4 candidates, batch up to 3; acquisition values symbolic; evaluating(): set-level",
      trusted_base=["z3 5.1.0", "numpy.argmax returns the first maximiser", "interface contract Model.predict"],
      not_decided=["ThompsonEntropyDecoupledAcquisition (random, depends on the whole candidate array): DecoupledGP's 'maximiser' is relative to the values that call returned",
-                  "optimize_decoupled_acqf_discrete's top-q merge (argpartition/argsort on symbolic values) is covered only by the bounded stand-in",
                   "q larger than the number of candidates (separate C06 obligation)"])
 
 prop("C15",
